@@ -19,7 +19,7 @@ LEVEL = "exploration"
 CASES = {"quick": 330, "thorough": 8000}
 WALL_CAP = {"quick": 1500, "thorough": 5 * 3600}
 RELATIONS = ["repeat", "host", "history", "order", "subset"]
-WEIGHTS = {"shared_instants": 0.5, "confusable": 0.25, "few_prices": 0.4, "micro": 0.4, "mixed_tz": 0.9, "whales": 0.2}
+WEIGHTS = {"ties": 0.4, "shared_instants": 0.5, "confusable": 0.25, "few_prices": 0.4, "micro": 0.4, "mixed_tz": 0.9, "whales": 0.2}
 CRASH_WORLDS = {"quick": 1, "thorough": 6}
 CRASH_STRIDE = {"quick": 3, "thorough": 1}
 RULE = ("one case = a reference run of a generated valid world (all instants distinct) + option tuple in a pristine directory under the "
@@ -43,7 +43,8 @@ def make_case(seed, facts, index=0):
     base = c16.make_case(rng.randint(0, 2**62), facts, index, weights=WEIGHTS)
     # C17 needs unique ids (dump normalisation) and distinct instants; both hold by construction of the generator
     tries = 0
-    while (not W.distinct_instants(base["world"]) or "unique_id" not in base["world"]["headers"]["IN"] or "unique_id" not in base["world"]["headers"]["OUT"]
+    ties_ok = rng.random() < 0.35  # equal instants are valid input: everything but the storage-order relation applies to them too
+    while ((not ties_ok and not W.distinct_instants(base["world"])) or "unique_id" not in base["world"]["headers"]["IN"] or "unique_id" not in base["world"]["headers"]["OUT"]
            or "unique_id" not in base["world"]["headers"]["INTRA"]) and tries < 20:
         base = c16.make_case(rng.randint(0, 2**62), facts, index, weights=WEIGHTS)
         tries += 1
@@ -59,6 +60,8 @@ def make_case(seed, facts, index=0):
     n_assets = len(base["world"]["sheets"])
     rels = []
     pool = ["repeat", "host", "host", "history", "history", "order", "order"] + (["subset", "subset", "subset"] if n_assets > 1 and not base["opts"].get("asset") else [])
+    if not W.distinct_instants(base["world"]):
+        pool = [r for r in pool if r != "order"] + ["host", "repeat"]  # the property promises order independence for distinct timestamps only
     for _ in range(rng.choice([2, 2, 3])):
         r = rng.choice(pool)
         rels.append(_make_relation(rng, r, base, facts))
@@ -149,6 +152,7 @@ def _make_relation(rng, kind, base, facts):
         rel["host"] = dict(gen.BASE_HOST, hashseed=rng.choice([0, 0, rng.randint(1, 2**32 - 1)]))
     elif kind == "repeat":
         rel["sched_seed"] = rng.randint(1, 2**31)  # same host, another seeded order of whatever the program runs in worker threads
+        rel["hashseed"] = rng.randint(1, 2**32 - 1)  # ... and another string-hash seed, as every ordinary re-run of a Python program has
     elif kind == "subset":
         names = sorted(s["name"] for s in base["world"]["sheets"])
         rel["asset"] = rng.choice(names)
@@ -164,7 +168,7 @@ def _make_relation(rng, kind, base, facts):
 def valid_case(case):
     if not c16.valid_case(case):
         return False
-    if not W.distinct_instants(case["world"]):
+    if not W.distinct_instants(case["world"]) and any(r["kind"] == "order" for r in case["relations"]):
         return False
     names = [s["name"] for s in case["world"]["sheets"]]
     for rel in case["relations"]:
@@ -275,7 +279,7 @@ def exec_case(case, facts, src=None):
             if kind == "repeat":
                 w1, f1 = core.layout_case("c17p", world, dict(opts), [])
                 worlds.append(w1)
-                res = runner.run(w1, f1, opts, host=dict(case["host"], sched_seed=rel.get("sched_seed", 0)), dump=True, keep_content=True, src=src)
+                res = runner.run(w1, f1, opts, host=dict(case["host"], sched_seed=rel.get("sched_seed", 0), hashseed=rel.get("hashseed", case["host"].get("hashseed", 0))), dump=True, keep_content=True, src=src)
                 stats["runs"] += 1
                 fired = True
                 if (res.get("child") or {}).get("sched_steps"):
